@@ -15,6 +15,10 @@ def parseOp : List String → Option Op
   | ["W", "wc", l, f] => some (.write (natOf l) (natOf f))   -- the same bytes pushed through io.Copy: one Write   -- the underlying writer also returned an error: bytes forwarded are counted all the same
   | ["W", "fl"] => some .flush
   | ["W", "bf", h] => some (.before (natOf h))
+  -- a hook that registers another hook WHILE the commit runs: the commit walks the hooks registered before it
+  -- (`hooks.reverse` of the pre-state) under the Once, so the late registration only lengthens a list that is
+  -- never walked again: for every observable it is the plain hook (the real run would show the late hook as hook9…)
+  | ["W", "bfr", h] => some (.before (natOf h))
   | ["W", "st"] => some .status
   | ["W", "sz"] => some .size
   | ["W", "wr"] => some .written
